@@ -431,6 +431,42 @@ class Stats:
         self.runner_samples += o.runner_samples
 
 
+def surface_rates(stats):
+    """per correspondence surface: cases, and the share that was non-trivial / outside the model's domain / an implementation error"""
+    out = {}
+    for name, n in stats.by_surface.items():
+        out[name] = {"cases": n}
+        for k in ("nontrivial", "undefined", "impl_exc"):
+            out[name][k] = round(stats.dist.get(f"surface_{k}:{name}", 0) / max(1, n), 4)
+    return out
+
+
+def coverage_loss_notes(pid, tier, rates):
+    """ADVISORY: compare the per-surface rates with the ones recorded on the unchanged tree (harness/coverage_baseline.json, written by
+    bin/mkcoveragebaseline from the quick evidence).  A surface whose non-trivial share collapses, or whose cases mostly leave the
+    model's domain or mostly end in an implementation error, still 'agrees' -- but it no longer exercises the property; the reader of
+    the evidence file should know (audit item D3).  Never a violation by itself."""
+    try:
+        base = json.loads((VERIF / "harness" / "coverage_baseline.json").read_text()).get(pid, {})
+    except Exception:   # noqa
+        return []
+    notes = []
+    for name, b in base.items():
+        r = rates.get(name)
+        if r is None:
+            notes.append(f"coverage loss (advisory): surface {name!r} of the recorded baseline ran no case")
+            continue
+        if r["cases"] < 30:
+            continue
+        if b["nontrivial"] >= 0.1 and r["nontrivial"] < 0.5 * b["nontrivial"]:
+            notes.append(f"coverage loss (advisory): surface {name!r}: non-trivial share {r['nontrivial']:.0%}, was {b['nontrivial']:.0%} on the unchanged tree")
+        if r["undefined"] > min(0.95, 2 * b["undefined"] + 0.15):
+            notes.append(f"coverage loss (advisory): surface {name!r}: {r['undefined']:.0%} of the cases are outside the model's domain, was {b['undefined']:.0%}")
+        if r["impl_exc"] > min(0.95, 2 * b["impl_exc"] + 0.15):
+            notes.append(f"coverage loss (advisory): surface {name!r}: {r['impl_exc']:.0%} of the cases end in an implementation error, was {b['impl_exc']:.0%}")
+    return notes
+
+
 def note(pid, text):
     """a remark from a shard process for the evidence file (collected by check.py): things worth telling that are not violations"""
     WORK.mkdir(exist_ok=True)
@@ -493,12 +529,16 @@ def run_shard(pmod, tier, seed, shard, nshards, budget_s):
             st.by_surface[surf.name] = st.by_surface.get(surf.name, 0) + 1
             if m[0] == "EXC" and m[1] == "EUndefined":
                 st.undefined += 1
+                st.bump("surface_undefined:" + surf.name)
                 continue
+            if i[0] == "EXC":
+                st.bump("surface_impl_exc:" + surf.name)
             for t in surf.tags(x):
                 st.bump("tag:" + t)
             st.bump("outcome:" + (i[1] if i[0] == "EXC" else "ok"))
             if surf.nontrivial(x, i, m):
                 st.nontrivial.add(stable_hash([surf.name, x]))
+                st.bump("surface_nontrivial:" + surf.name)
             if len(st.samples) < 6 and (st.evaluations % 97 == 1):
                 st.samples.append({"surface": surf.name, "input": surf.describe(x), "impl": wire.jsonable(i), "model": wire.jsonable(m)})
             if surf.agree(x, i, m):
